@@ -5,6 +5,8 @@
     cell            as in Basic (`NI:`/`NF:`/`NB:` numpy scalars are the same cells)
     PT:<us>         a `pd.Timestamp`  (the `dt` cell it is `==` to)
     HF:<q> | HF:nan an `np.float32`   (the float cell it holds: value q/4, or NaN)
+    LF:<q> | LF:nan an `np.longdouble` (the float cell it holds: value q/4 EXACTLY - q may exceed 2**53 * 4, the x86 type has a 64-bit mantissa - or NaN)
+    LC:<q>          an `np.clongdouble` whose imaginary part is 0 (the float cell q/4 its real part holds; review w5 F1)
     DT:<us>         a `datetime.date` (its own constructor: `date != datetime`)
     M8<unit>:<us>   an `np.datetime64[unit]` (unit D|h|s|ms|us|ns): the `dt` cell of its instant
     M8ps:<n> | M8fs:<n> | M8as:<n>   an `np.datetime64` of n pico / femto / attoseconds since 1970 (the COUNT, not microseconds): `fdt` (attoseconds)
@@ -16,7 +18,7 @@
     (LS <n> v*)     an instance of list / tuple SUBCLASS number n >= 1 (harness: 1, 2 = two namedtuple classes, 3, 4 = two `list` subclasses, 5 = a `tuple` subclass)
     (IX <kind> (label*))   a `pd.Index` as a value; kind word (o = Index, r = RangeIndex, d = DatetimeIndex, m = MultiIndex-free others) ignored by the model
     (D (hexkey v)*) plain dict;  (DC <n> (hexkey v)*)  dict subclass number n >= 1
-    (A <dtype> (<n>*) v*)        ndarray: dtype word (i f e b U o, Mns Mus Ms MD Mps Mfs = datetime64, mns mus mD mY mM = timedelta64;
+    (A <dtype> (<n>*) v*)        ndarray: dtype word (i f e g b U o, Mns Mus Ms MD Mps Mfs = datetime64, mns mus mD mY mM = timedelta64;
                                  ignored by the model: `eq` compares cells, not dtypes), shape, cells row-major
     (S (label*) v*)              Series: index labels, values
     (SN <name> (label*) v*)      the same Series with `name` = the cell <name> (ignored by the model: `eq` compares index and cells, not names)
@@ -33,7 +35,8 @@ open Pyg
 def cellAtom : Sexp → Option Cell
   | .atom s =>
     if s.startsWith "PT:" then (s.drop 3).toString.toInt?.map .dt
-    else if s.startsWith "HF:" then Cell.parse (s.drop 1).toString
+    else if s.startsWith "HF:" || s.startsWith "LF:" then Cell.parse (s.drop 1).toString
+    else if s.startsWith "LC:" && s != "LC:nan" then Cell.parse ("F:" ++ (s.drop 3).toString)
     else if s.startsWith "DT:" then Option.none
     else Cell.parse s
   | _ => Option.none
